@@ -11,6 +11,7 @@ import Aldy.Driver.C07
 import Aldy.Driver.C08
 import Aldy.Driver.C09
 import Aldy.Driver.C04
+import Aldy.Driver.C16
 
 /-! Line-protocol driver: one JSON object per input line (`{"op": ..., ...}`), one JSON
 object per output line.  Errors are reported as `{"error": msg}`; the driver never guesses. -/
@@ -44,6 +45,7 @@ def dispatch (j : Json) : Except String Json := do
   | "catalogue" => opCatalogue j
   | "minor_build" => opMinorBuild j
   | "minor_readout" => opMinorReadout j
+  | "vcf_load" => opVcfLoad j
   | "ping" => pure (objJ [("pong", boolJ true)])
   | _ => .error s!"unknown op {op}"
 
